@@ -327,6 +327,16 @@ def stepLine (d : DState) (line : String) : DState × String :=
         let n := ms.toInt?.getD 0
         let s := if d.ticker && n ≥ 2500 then tick d.cfg d.s else d.s
         ({ d with s := s, ck := { d.ck with now := d.ck.now + n * 1000000 } }, "ok")
+    | "mget" :: keys =>
+      -- one Get over three swamp entries (this swamp, a swamp that was never created, this swamp):
+      -- a batch answers per swamp, so a missing swamp is an entry, not an error
+      let (d1, r) := stepReq d ("get" :: keys)
+      let parts := r.splitOn "\t"
+      let body := parts.headD ""
+      let flags := String.join ((parts.drop 1).map fun p => "\t" ++ p)
+      if body == "err:FailedPrecondition" then (d1, "mget noswamp / noswamp / noswamp" ++ flags)
+      else if body.startsWith "get " then (d1, s!"mget {body.drop 4} / noswamp / {body.drop 4}" ++ flags)
+      else (d1, r)
     | [verb] =>
       if verb == "closeidle" || verb == "restart" || verb == "close" then
         if d.s.dead then (d, "skip")
